@@ -42,7 +42,7 @@ import (
 )
 
 func init() {
-	register(&Prop{ID: "C23", Gen: genC23, Run: runC23, Timeout: 120 * time.Second})
+	register(&Prop{ID: "C23", Gen: genC23, Run: runC23, Timeout: 60 * time.Second})
 }
 
 const c23Id = blockfetch.ProtocolId
@@ -292,11 +292,11 @@ func runC23(op string) string {
 	// as soon as that has happened), short when nothing more can happen
 	settle := 30 * time.Millisecond
 	if !isGet {
-		settle = 20 * time.Second
+		settle = 12 * time.Second
 	}
 	for _, e := range evs {
 		if e == "D" || e == "N" {
-			settle = 20 * time.Second
+			settle = 12 * time.Second
 		}
 	}
 	if isGet {
@@ -311,12 +311,19 @@ func runC23(op string) string {
 	wait:
 		for {
 			mu.Lock()
-			enough := len(cb) >= nB && (last != "D" || done > 0)
+			// a handled BatchDone ends the batch: nothing sent after it is ever handled
+			enough := (len(cb) >= nB && (last != "D" || done > 0)) || done > 0
 			mu.Unlock()
-			if enough {
+			if enough || len(evs) == 0 {
 				break
 			}
 			select {
+			case r := <-resCh:
+				got = &r
+				if r.err != nil {
+					// the request failed (NoBlocks, protocol error): no batch will be delivered
+					break wait
+				}
 			case <-progress:
 			case <-cli.DoneChan():
 				// the protocol has failed: nothing more will be delivered
@@ -325,16 +332,21 @@ func runC23(op string) string {
 				break wait
 			}
 		}
-		select {
-		case r := <-resCh:
-			got = &r
-		case <-cli.DoneChan():
+		if got == nil {
+			if len(evs) == 0 {
+				settle = 30 * time.Millisecond
+			}
 			select {
 			case r := <-resCh:
 				got = &r
-			case <-time.After(5 * time.Second):
+			case <-cli.DoneChan():
+				select {
+				case r := <-resCh:
+					got = &r
+				case <-time.After(5 * time.Second):
+				}
+			case <-time.After(settle):
 			}
-		case <-time.After(settle):
 		}
 	}
 	// silence is over: the peer disconnects
@@ -343,7 +355,7 @@ func runC23(op string) string {
 		select {
 		case r := <-resCh:
 			got = &r
-		case <-time.After(10 * time.Second):
+		case <-time.After(8 * time.Second):
 			if isGet {
 				return "HANG"
 			}
@@ -361,7 +373,7 @@ func runC23(op string) string {
 	stuck := ""
 	select {
 	case <-cli.DoneChan():
-	case <-time.After(10 * time.Second):
+	case <-time.After(8 * time.Second):
 		stuck = " STUCK"
 	}
 	mu.Lock()
@@ -464,7 +476,7 @@ func runC23Two(f []string) string {
 	go func() {
 		rangeRes <- cli.GetBlockRange(pcommon.NewPoint(blocks[1].Slot, blocks[1].Hash), pcommon.NewPoint(blocks[2].Slot, blocks[2].Hash))
 	}()
-	if _, err := l.peer.recv(c23Id, 20*time.Second); err != nil {
+	if _, err := l.peer.recv(c23Id, 12*time.Second); err != nil {
 		return "norequest"
 	}
 	type gres struct {
@@ -497,11 +509,11 @@ func runC23Two(f []string) string {
 	var r1err error
 	select {
 	case r1err = <-rangeRes:
-	case <-time.After(20 * time.Second):
+	case <-time.After(12 * time.Second):
 		return "r1: HANG"
 	}
 	// everything script1 causes has to be delivered before the second phase is judged
-	deadline := time.After(20 * time.Second)
+	deadline := time.After(12 * time.Second)
 waitCb:
 	for {
 		mu.Lock()
@@ -524,7 +536,7 @@ waitCb:
 	}
 	r2 := ""
 	if early == "" {
-		if _, err := l.peer.recv(c23Id, 20*time.Second); err != nil {
+		if _, err := l.peer.recv(c23Id, 12*time.Second); err != nil {
 			r2 = "norequest2"
 		}
 	}
@@ -535,7 +547,7 @@ waitCb:
 		settle := 30 * time.Millisecond
 		for _, e := range ev2 {
 			if e == "D" || e == "N" {
-				settle = 20 * time.Second
+				settle = 12 * time.Second
 			}
 		}
 		var g *gres
@@ -549,7 +561,7 @@ waitCb:
 			select {
 			case x := <-getRes:
 				g = &x
-			case <-time.After(10 * time.Second):
+			case <-time.After(8 * time.Second):
 			}
 		}
 		switch {
